@@ -145,6 +145,9 @@ pub fn fields_prev_in_result_body<S: Src>(s: &mut S) {
     let (prev, prev_r) = seg(2, 0.0, 1.0, prev_vertical, s.bool());
     prev.set_in_out(s.bool(), s.bool());
     prev.set_result_transition(prev_rt);
+    // the predecessor may be any kind of edge, in particular the in-result twin of a coincident pair
+    let prev_et = any_et(s);
+    prev.set_edge_type(prev_et);
     if prev_has_pir {
         prev.set_prev_in_result(&pp);
     }
@@ -158,6 +161,7 @@ pub fn fields_prev_in_result_body<S: Src>(s: &mut S) {
     s.assume(!prev_has_pir || (pir_rt != ResultTransition::None && !pir_vertical));
     vcover!(!has_prev && ev_has_stale_pir, "recompute-without-prev");
     vcover!(has_prev && prev_vertical && prev_rt != ResultTransition::None && prev_has_pir, "vertical-result-prev-skipped");
+    vcover!(has_prev && !prev_vertical && prev_rt != ResultTransition::None && prev_et == EdgeType::SameTransition, "coincident-result-prev");
 
     compute_fields(&ev, if has_prev { Some(&prev) } else { None }, op);
 
